@@ -158,6 +158,9 @@ def ledgers(draw, max_txns=10, with_pad=True, with_extras=True, min_txns=1, many
             'links': sorted(draw(st.sets(st.sampled_from(['inv-1', 'inv-2']), max_size=1))),
             'meta': draw(metas(3)) if draw(st.integers(0, 2)) == 0 else {},
             'postings': list(postings)})
+        if kind not in ('buy', 'sell') and draw(st.integers(0, 5)) == 0:
+            # the same transaction once more (two equal coffees on one day): equal but for the line number
+            directives.append(dict(directives[-1]))
         if with_extras and draw(st.integers(0, 2)) == 0:
             ekind = draw(st.sampled_from(['price', 'price', 'note', 'event', 'document', 'query', 'custom']))
             edate = date + datetime.timedelta(days=draw(st.integers(0, 1)))
